@@ -15,6 +15,7 @@
  */
 #pragma once
 
+#include <unifex/detail/verif_hooks.hpp>
 #include <unifex/detail/intrusive_queue.hpp>
 #include <unifex/detail/intrusive_stack.hpp>
 
@@ -90,6 +91,7 @@ public:
         item->*Next = static_cast<Item*>(oldValue);
         newValue = item;
       }
+      UNIFEX_VERIF_POINT(271);
     } while (!head_.compare_exchange_weak(
         oldValue, newValue, std::memory_order_acq_rel));
     return oldValue != inactive;
@@ -106,6 +108,7 @@ public:
     do {
       item->*Next =
           (oldValue == inactive) ? nullptr : static_cast<Item*>(oldValue);
+      UNIFEX_VERIF_POINT(272);
     } while (!head_.compare_exchange_weak(
         oldValue, item, std::memory_order_acq_rel));
     return oldValue == inactive;
@@ -147,6 +150,7 @@ public:
   [[nodiscard]] bool try_mark_inactive() noexcept {
     void* const inactive = producer_inactive_value();
     void* oldValue = head_.load(std::memory_order_relaxed);
+    UNIFEX_VERIF_POINT(273);
     if (oldValue == nullptr) {
       if (head_.compare_exchange_strong(
               oldValue,
